@@ -293,6 +293,14 @@ func (c *Ctx) Eq(a, b *Term) *Term {
 			return c.False
 		}
 	}
+	// (ite c x y) = k where one side folds
+	if b.IsConst() && a.Op == OIte && a.S == SBV {
+		e1 := c.Eq(a.Args[1], b)
+		e2 := c.Eq(a.Args[2], b)
+		if e1.IsConst() || e2.IsConst() {
+			return c.Ite(a.Args[0], e1, e2)
+		}
+	}
 	// zext(x) = k
 	if b.IsConst() && a.Op == OZExt {
 		x := a.Args[0]
@@ -734,12 +742,6 @@ func (c *Ctx) Extract(a *Term, hi, lo int) *Term {
 		if lo == 0 || true {
 			x := c.Extract(a.Args[0], hi, lo)
 			y := c.Extract(a.Args[1], hi, lo)
-			return c.Bin(a.Op, x, y)
-		}
-	case OAdd, OSub, OMul:
-		if lo == 0 {
-			x := c.Extract(a.Args[0], hi, 0)
-			y := c.Extract(a.Args[1], hi, 0)
 			return c.Bin(a.Op, x, y)
 		}
 	case OIte:
